@@ -52,7 +52,7 @@ theorem Adj.sameT {c d c' d' : SChunk} (h : Adj c d) (h1 : SameT c c') (h2 : Sam
 theorem AdjChain.pwT : ∀ {l l' : List SChunk}, PW SameT l l' → AdjChain l → AdjChain l'
   | [], [], _, _ => trivial
   | [_], [_], _, _ => trivial
-  | c :: d :: rest, c' :: d' :: rest', h, hc =>
+  | _ :: d :: rest, _ :: d' :: rest', h, hc =>
     ⟨hc.1.sameT h.1 h.2.1, AdjChain.pwT (l := d :: rest) (l' := d' :: rest') h.2 hc.2⟩
   | [], _ :: _, h, _ => h.elim
   | _ :: _, [], h, _ => h.elim
@@ -146,7 +146,7 @@ theorem revChain_of_chain : ∀ (m : List SChunk) (x : SChunk), AdjChain (m.reve
 
 theorem backOk_of_rev : ∀ (m : List SChunk) (x : SChunk), RevChain x m → x.Unrel → BackOk (x :: m)
   | [], _, _, hx => ⟨hx, fun _ => trivial⟩
-  | d :: ds, x, h, hx =>
+  | d :: ds, _, h, hx =>
     ⟨hx, fun hb => backOk_of_rev ds d h.2 ((h.1 (Or.inr hb)).symm.unrel hx)⟩
 
 theorem abMark_unrel {c : SChunk} (h : c.Unrel) : (abMark c).Unrel := h
